@@ -459,7 +459,7 @@ def _write(
                     assert(rootgroup.__contains__(target_grp.name)), "Specified target node not found in the EMD file - check your emdpath."
                     # get the path from source to target, then
                     # move `data` to the target node point
-                    path_to_target = target_grp.name.replace(rootgroup.name,'')[1:]
+                    path_to_target = target_grp.name[len(rootgroup.name)+1:]
                     try:
                         data = data.tree(path_to_target)
                     except AssertionError:
@@ -550,7 +550,7 @@ def _write(
                             elif source_grp.__contains__(target_grp.name):
                                 # get the path from source to target, then
                                 # move `data` to the target node point
-                                path_to_target = target_grp.name.replace(source_grp.name,'')[1:]
+                                path_to_target = target_grp.name[len(source_grp.name)+1:] if target_grp.name.startswith(source_grp.name+'/') else target_grp.name[1:]
                                 try:
                                     data = data.tree(path_to_target)
                                 except AssertionError:
